@@ -249,7 +249,13 @@ impl<'a> ListStylist<'a> {
                     self.can_attach = false;
                     if let Some(nl) = self.keep_linebreak {
                         if newline_cnt >= 2 && !self.items.is_empty() {
-                            self.items.push(Item::Linebreak((newline_cnt - 1).min(nl)));
+                            let n = (newline_cnt - 1).min(nl);
+                            // Blank lines before and after a separator must not add up.
+                            if let Some(Item::Linebreak(last)) = self.items.last_mut() {
+                                *last = (*last).max(n);
+                            } else {
+                                self.items.push(Item::Linebreak(n));
+                            }
                         }
                     }
                 }
